@@ -160,7 +160,11 @@ def family(prop, tier, params=None, cfg=None, **kw):
                ~2 * 10^6 executions per property and did not finish in 90 minutes on this machine; DESIGN.md section 10)
     """
     kw.pop('racing', None)
-    if tier == 'thorough':
+    light = kw.pop('thorough_light', False)
+    if tier == 'thorough' and light:
+        # (properties whose scenarios end in wait_until_idle() on every bus: the two passes below ran for over an hour; one pass, the sub-grammar at 2 deviations)
+        passes = [('gen2', 'quick', False, dict(bound=2, cap=1500, window=0.7, max_targets=2))]
+    elif tier == 'thorough':
         passes = [('gen2', 'quick', True, dict(bound=2, cap=1500, window=0.7, max_targets=2)),
                   ('genF', 'full', False, dict(bound=1, cap=300, window=0.7, max_targets=2))]
     else:
